@@ -30,7 +30,11 @@ def main():
             print(n, "PATCH DOES NOT APPLY", out[-300:])
             continue
         rc_pat, _ = sh(f"timeout 600 /venv/bin/python {d}/demo.py", cwd=wt, env=env)
+        evp = os.path.join(VERIF, "evidence", f"{pid}.json")
+        bak = open(evp).read() if os.path.exists(evp) else None
         rc_chk, out = sh(f"timeout 2400 ./check {pid}", cwd=VERIF, env={"VERIF_REPO": wt})
+        if bak is not None:  # the evidence file committed must come from a run against /repo itself
+            open(evp, "w").write(bak)
         sh("git checkout -- .", cwd=wt)
         lines = [l for l in out.splitlines() if l.startswith(("VIOLATION", "KNOWN-FINDING"))]
         viol = [l for l in lines if l.startswith("VIOLATION")]
